@@ -57,6 +57,10 @@ def law_k(name, wav_micron):
 def names_for(n):
     # deliberately not in alphabetical order in the package
     base = ['mdl_k', 'mdl_c', 'mdl_x', 'mdl_a', 'mdl_q', 'mdl_f', 'mdl_z', 'mdl_b', 'mdl_m', 'mdl_e']
+    # larger grids: names in scrambled order, every seventh one filling the 30 characters of the MODEL_NAME column
+    for i in range(10, n):
+        tag = '%05d' % ((i * 7919 + 13) % 100003)
+        base.append(('mdl_w_%s' % tag) if i % 7 else ('mdl_long_name_filling_30_%s' % tag))
     return base[:n]
 
 
